@@ -18,7 +18,8 @@ import (
 // Primary implements the primary node functionality for WAL replication.
 // It observes WAL entries and serves them to replica nodes.
 type Primary struct {
-	wal               *wal.WAL                   // Reference to the WAL
+	wal               *wal.WAL                   // Reference to the current WAL (see OnWALRotated)
+	walMu             sync.RWMutex               // Protects the wal reference
 	batcher           *WALBatcher                // Batches WAL entries for efficient transmission
 	compressor        *CompressionManager        // Handles compression/decompression
 	sessions          map[string]*ReplicaSession // Active replica sessions
@@ -181,6 +182,21 @@ func (p *Primary) OnWALBatchWritten(startSeq uint64, entries []*wal.Entry) {
 	}
 }
 
+// OnWALRotated implements wal.WALRotationObserver: the storage manager has replaced
+// the WAL object (flush), entries are read from and counted on the new one from now on
+func (p *Primary) OnWALRotated(newWAL *wal.WAL) {
+	p.walMu.Lock()
+	p.wal = newWAL
+	p.walMu.Unlock()
+}
+
+// currentWAL returns the WAL that is current now
+func (p *Primary) currentWAL() *wal.WAL {
+	p.walMu.RLock()
+	defer p.walMu.RUnlock()
+	return p.wal
+}
+
 // OnWALSync implements WALEntryObserver.OnWALSync
 func (p *Primary) OnWALSync(upToSeq uint64) {
 	p.mu.Lock()
@@ -279,7 +295,7 @@ func (p *Primary) StreamWAL(
 			return ctx.Err()
 		case <-ticker.C:
 			// Check if we have new entries to send
-			currentSeq := p.wal.GetNextSequence() - 1
+			currentSeq := p.currentWAL().GetNextSequence() - 1
 			if currentSeq > session.LastAckSequence {
 				log.Info("Checking for new entries: currentSeq=%d > lastAck=%d",
 					currentSeq, session.LastAckSequence)
@@ -627,7 +643,7 @@ func (p *Primary) getWALEntriesFromSequence(fromSequence uint64) ([]*wal.Entry, 
 
 	// Get current sequence in WAL (next sequence - 1)
 	// We subtract 1 to get the current highest assigned sequence
-	currentSeq := p.wal.GetNextSequence() - 1
+	currentSeq := p.currentWAL().GetNextSequence() - 1
 
 	log.Info("GetWALEntriesFromSequence called with fromSequence=%d, currentSeq=%d",
 		fromSequence, currentSeq)
@@ -640,7 +656,7 @@ func (p *Primary) getWALEntriesFromSequence(fromSequence uint64) ([]*wal.Entry, 
 
 	// Use the WAL's built-in method to get entries starting from the specified sequence
 	// This preserves the original keys and values exactly as they were written
-	allEntries, err := p.wal.GetEntriesFrom(fromSequence)
+	allEntries, err := p.currentWAL().GetEntriesFrom(fromSequence)
 	if err != nil {
 		log.Error("Failed to get WAL entries: %v", err)
 		return nil, fmt.Errorf("failed to get WAL entries: %w", err)
@@ -811,7 +827,7 @@ func (p *Primary) maybeManageWALRetention() {
 		MinSequenceKeep: minAcknowledgedSeq,
 	}
 
-	filesDeleted, err := p.wal.ManageRetention(config)
+	filesDeleted, err := p.currentWAL().ManageRetention(config)
 	if err != nil {
 		log.Error("Failed to manage WAL retention: %v", err)
 		return
@@ -833,7 +849,7 @@ func (p *Primary) Close() error {
 	}
 
 	// Unregister from WAL
-	p.wal.UnregisterObserver("primary_replication")
+	p.currentWAL().UnregisterObserver("primary_replication")
 
 	// Close all replica sessions
 	p.mu.Lock()
